@@ -196,6 +196,9 @@ def plan(pid, tier, seed):
         rest = [c for c in graph_conformance(tier, seed) if c['family'] in fam]
         if pid in ('C01', 'C02', 'C03'):
             rest.append({'kind': 'shapes', 'variant': 'shapes', 'params': {}, 'family': 's'})
+        if pid == 'C16':
+            for b in (['all-dev', 'nofin-rel'] if tier == 'quick' else ['all-dev', 'all-rel', 'nofin-rel', 'default-dev']):
+                rest.append({'kind': 'satgraph', 'variant': b, 'params': {}, 'family': 'g'})
         if pid == 'C15':
             for b in (['all-dev', 'nofin-rel'] if tier == 'quick' else ['all-dev', 'all-rel', 'nofin-rel', 'default-dev']):
                 rest.append({'kind': 'policy', 'variant': b, 'params': {}, 'family': 'a'})
